@@ -236,6 +236,10 @@ def gen_dyn(ch):
                        % (i, kk, i, r1 - kk, i, kk, i, r1 - kk, i, i, r1, kk, i, r1 - kk))
             out.append('{ int (*q)[n%d] = p%d; q -= %d; @chk(q == v%d + %d); q++; q--; q += %d; @chk(q == p%d); @chk((v%d + %d) - (v%d + %d) == %d); }'
                        % (i, i, kk, i, r1 - kk, kk, i, i, r1, i, r1 - kk, kk))
+            if ch.bool():
+                feat.add('vla-parameter')
+                out.append('@chk(@vrow(nr%d, n%d, v%d, %d, %d) == ((long)%d * n%d + %d) * 4 + (long)n%d * 4 * 100000 + 8L * 10000000); @chk(@vptr(n%d, v%d, %d) == (long)%d * n%d * 4 + (long)n%d * 4 * 100000);'
+                           % (i, i, i, r1, j, r1, i, j, i, i, i, r1, r1, i, i))
             live.append((i, 4 * rows))
             out.append('@fill(b%d, n%d * %d, %d); @al(b%d, 4);' % (i, i, 4 * rows, i + 1, i))
             out.append('(*(p%d - %d))[0] = (*(p%d - %d))[0]; @chk(v%d[%d][0] == (*(p%d - %d))[0]);' % (i, kk, i, kk, i, r1 - kk, i, kk))
@@ -302,10 +306,13 @@ def gen_dyn(ch):
              'static void @ver(char *p, long n, int pat) { long i; int ok = 1; for (i = 0; i < n; i++) if (p[i] != (char)(pat * 37 + i)) ok = 0; @chk(ok); }\n'
              'static void @dis(char *a, long na, char *b, long nb) { @chk(a + na <= b || b + nb <= a); }\n'
              'static void @al(char *p, int a) { @chk(((unsigned long)p % a) == 0); }\n'
+             # parameters of variably modified type: the bounds are earlier parameters, the sizes are computed on entry
+             'static long @vrow(int r, int c, int a[r][c], int i, int j) { return ((char *)&a[i][j] - (char *)a) + (long)sizeof(a[0]) * 100000 + (long)sizeof(a) * 10000000; }\n'
+             'static long @vptr(int c, int (*p)[c], int k) { return (char *)(p + k) - (char *)p + (long)sizeof(*p) * 100000; }\n'
              + ndecl + '\n' + '\n'.join(f for f in reversed(fns) if f) + '\n')
     # functions reference each other only downwards (higher index = deeper): reversed order defines callees first
     bodytxt = '  ' + '\n  '.join(stmts) + '\n  printf("@ bad=%d checks=%d\\n", @bad, @cnt);\n'
-    nt = (tuple(sorted(feat)), core.shash(bodytxt)) if (('alloca-pending-temps' in feat) or ('vla-rows' in feat) or len(sizes) >= 2) else None
+    nt = (tuple(sorted(feat)), core.shash(bodytxt)) if (('alloca-pending-temps' in feat) or ('vla-rows' in feat) or ('vla-parameter' in feat) or len(sizes) >= 2) else None
     return diffprog.Case(decls=decls, body=bodytxt, nt=nt, tags=sorted(feat))
 
 
